@@ -65,6 +65,28 @@ Definition do_connect_src (q : nat) (n : bytes) (s : state) : state :=
   if made (conns s q) then s else
   match Connection_connection_made bname q (p_new_conn q n s) with BOk _ s' | BRaise s' | BFuel s' => s' end.
 
+(* asyncio calls pause_writing / resume_writing alternately (the wpaused flag is the transport's); one Tick = one second of
+   every running deadline coroutine: the one whose sleep ends runs the rest of its body *)
+Definition do_pausew_src (q : nat) (s : state) : state :=
+  let c := conns s q in
+  if made c && negb (lost c) && negb (wpaused c) then
+    match Connection_pause_writing q (modc q (set_wpaused true) s) with BOk _ s' | BRaise s' | BFuel s' => s' end
+  else s.
+Definition do_resumew_src (q : nat) (s : state) : state :=
+  let c := conns s q in
+  if made c && negb (lost c) && wpaused c then
+    match Connection_resume_writing q (modc q (set_wpaused false) s) with BOk _ s' | BRaise s' | BFuel s' => s' end
+  else s.
+Definition tick1_src (s : state) (q : nat) : state :=
+  match timer (conns s q) with
+  | None => s
+  | Some n =>
+      if (n <=? 1)%nat then
+        match Connection_deadline_expired q (modc q (set_timer None) s) with BOk _ s' | BRaise s' | BFuel s' => s' end
+      else modc q (set_timer (Some (n - 1)%nat)) s
+  end.
+Definition do_tick_src (s : state) : state := fold_left tick1_src (rev (ids s)) s.
+
 Definition step_src (s : state) (e : event) : state :=
   match e with
   | Connect q n => do_connect_src q n s
@@ -72,9 +94,9 @@ Definition step_src (s : state) (e : event) : state :=
   | PeerClosed q => do_peer_closed q s
   | Lost q => do_lost_src q s
   | LookupDone q r => do_lookup_done_src q r s
-  | PauseW q => do_pausew q s
-  | ResumeW q => do_resumew q s
-  | Tick => do_tick s
+  | PauseW q => do_pausew_src q s
+  | ResumeW q => do_resumew_src q s
+  | Tick => do_tick_src s
   end.
 Definition run_src (h : list event) : state := fold_left step_src h state0.
 
@@ -107,6 +129,18 @@ Proof.
     rewrite (Connection_on_auth_result_eq ppq_src q r i dg rest s P). cbv zeta. rewrite ppq_src_eq.
     destruct r as [l|]; [|reflexivity].
     destruct (authenticate (ppq store async_store q) q i dg l (modc q (set_pending rest) s)); reflexivity.
+  - unfold do_pausew_src, do_pausew. destruct (made (conns s q) && negb (lost (conns s q)) && negb (wpaused (conns s q))); [|reflexivity].
+    rewrite Connection_pause_writing_eq. unfold modc. apply state_ext; cbn; try reflexivity.
+    intro x. rewrite upd_same. unfold upd. destruct (Nat.eqb x q); [|reflexivity]. rewrite Nat.eqb_refl. reflexivity.
+  - unfold do_resumew_src, do_resumew. destruct (made (conns s q) && negb (lost (conns s q)) && wpaused (conns s q)); [|reflexivity].
+    rewrite Connection_resume_writing_eq. unfold modc. apply state_ext; cbn; try reflexivity.
+    intro x. rewrite upd_same. unfold upd. destruct (Nat.eqb x q); [|reflexivity]. rewrite Nat.eqb_refl. reflexivity.
+Qed.   (* Tick: do_tick_src and do_tick are convertible (tick1_src_eq holds by computation) *)
+
+Lemma tick1_src_eq : forall s q, tick1_src s q = tick1 s q.
+Proof.
+  intros s q. unfold tick1_src, tick1. destruct (timer (conns s q)) as [n|]; [|reflexivity].
+  destruct (n <=? 1)%nat; [|reflexivity]. rewrite Connection_deadline_expired_eq. reflexivity.
 Qed.
 
 Theorem run_src_eq : forall h, run_src h = run bname store async_store h.
